@@ -501,13 +501,17 @@ def absorb_lin(run, job, res):
             res["violations"].append({"tags": ["C14", "C15"], "rule": "bound.or.accounting.wrong.at.quiescence", "line": rej["line"],
                                       "name": desc["name"], "init": desc["init"]})
             continue
-        tags = {"C16"} if incomplete else ({"C04"} if desc["kind"] == "C04" else {"C03"})
+        tags = {"C16"} if incomplete else ({desc["kind"]} if desc["kind"] in ("C04", "C08", "C19") else {"C03"})
+        if not incomplete:
+            tags |= set(getattr(run, "lin_tags", ()))   # the property this selection of programs was made for
         if desc.get("init") == "expired" and not incomplete:
             tags.add("C05")        # an expired item was returned / treated as present (or an acknowledged successor lost)
         if incomplete:
             rule = "did.not.complete." + rej["outcome"]
         else:
-            rule = "not.linearizable." + "+".join(desc["ops"])
+            # nonserial: linearizable against the (permissive) contract, but no one-at-a-time execution of the
+            # server itself shows this outcome
+            rule = ("not.serializable." if rej.get("nonserial") else "not.linearizable.") + "+".join(desc["ops"])
         res["violations"].append({"tags": sorted(tags), "rule": rule, "line": rej["line"], "name": desc["name"], "init": desc["init"]})
     run.add_result(job, res)
     if not run.samples and res.get("histories", 0):
@@ -548,6 +552,46 @@ def conc_eviction_extra(pid, tier, seed):
     return len(bad), {"concurrent_eviction": {"histories": run.traces, "schedules_executed": run.extra.get("schedules_executed", 0),
                                               "accepted": run.cov.get("history.linearizable", 0),
                                               "mc_runs": [{"cfg": r["cfg"], "distinct": r["distinct"], "generated": r["generated"]} for r in run.mc]}}
+
+
+def conc_extra(pid, tier, seed):
+    """Concurrent clauses of sequentially phrased properties, decided like C03/C04: every schedule of 2-client programs on the
+    real crate (deterministic scheduler at the yield points of the instrumented store), each history judged by MemcLin.
+      C01  get / set / CAS-set / delete racing each other and the lazy collection of an expired predecessor
+           (an acknowledged store is never undone by somebody else's retrieval)
+      C08  delete / immediate flush / delayed flush racing everything that rewrites a record; the final reads come after
+           the delay has run out
+      C19  quiet commands racing each other and loud ones: silence rules and effects under every interleaving"""
+    run = Run(pid, tier, seed)
+    run.dir = workdir("check-" + pid + "-conc")
+    run.lin_tags = {pid}
+    kind = {"C01": "C03"}.get(pid, pid)
+    quick = tier == "quick"
+    jobs = []
+    parts = 6
+    for p in range(parts):
+        jobs.append((["conc", "--kind", kind, "--set", "pairs", "--part", p, "--parts", parts, "--max-runs", 3000 if quick else 20000], "MemcLin",
+                     "pairs-%s-%d.ndjson" % (kind, p), "all schedules of 2-client programs %s part %d" % (kind, p), None))
+    for i in range(1 if quick else 6):
+        jobs.append((["conc-stress", "--kind", kind, "--count", 30 if quick else 100, "--rounds", 10 if quick else 40, "--seed", seed * 10 + i], "MemcLin",
+                     "stress-%d.ndjson" % i, "OS-thread stress %s #%d" % (kind, i), None))
+
+    def one(j):
+        return job_trace(j[0], j[1], j[2], run.dir, j[3], lin=True)
+    for job, res in parallel(one, jobs, workers=8):
+        absorb_lin(run, job, res)
+    bad = []
+    for (job, res, v) in run.bad:
+        if len(bad) < 4:
+            path = write_replay(pid, {"driver": job.get("driver"), "args": job.get("args"), "spec": "MemcLin", "property": pid, "violation": v})
+            log("VIOLATION property=%s replay=%s" % (pid, path))
+            log("  %s: %s" % (job.get("desc"), json.dumps(v)[:200]))
+        bad.append(v)
+    if not bad and not run.cov.get("history.linearizable", 0):
+        raise ToolError("vacuous concurrent part for %s: no history was accepted" % pid)
+    return len(bad), {"concurrent": {"histories": run.traces, "schedules_executed": run.extra.get("schedules_executed", 0),
+                                     "programs_exhausted": run.extra.get("programs_exhausted", 0),
+                                     "accepted": run.cov.get("history.linearizable", 0)}}
 
 
 def conc_expiry_extra(pid, tier, seed):
